@@ -213,6 +213,15 @@ def r2_carry_over(ctx):
     # bytes_read and min_chunk_size by role: second element of the raw read, first size parameter
     ok = t == f"(bytes_read)<({gb.params[1]})"
     ctx.ob(gb.where, "end of file is inferred from a short read (bytes read < bytes requested)", ok, t, key="C01-R2|finished-flag")
+    # ... on EVERY path through _get_buffer: a read of 0 bytes is a short read too (a return placed before the flag is set leaves the reader 'not finished'
+    # after the end of the file: read_chunk then seeks back / keeps a tail that does not exist)
+    gg = CFG(gb.node)
+    fin_nodes = [n for n in gg.stmt_nodes(ast.Assign) if n.ast is fin[0]]
+    reads = [n for n in gg.nodes if n.kind == "stmt" and any(isinstance(c, ast.Call) and u(c.func).endswith("__read_raw_chunk") for c in ast.walk(n.ast))]
+    if fin_nodes and reads:
+        bad = gg.path([reads[0]], [gg.exit], blocked=lambda n: n in fin_nodes)
+        ctx.ob(gb.where, "the end-of-file flag is updated after every raw read, whatever the read returned (no return between the read and the update)", bad is None,
+               CFG.show(bad) if bad else "", key="C01-R2|finished-flag-every-path", definite=True)
     raw = ctx.index.func(PARSER, "NumpyFileReader.__read_raw_chunk")
     rtxt = [u(n.value) for n in body_walk(raw.node) if isinstance(n, ast.Return)]
     renv = local_env(raw.node)
